@@ -474,6 +474,12 @@ func firstDiff(a []tlog.Hash, b []ref.Hash) string {
 // answer is reported as non-termination (the goroutine is abandoned and the
 // run ends; the verdict does not depend on timing for any terminating call).
 func c03Guard(res *core.Result, what string, f func()) (ok bool) {
+	return guardCall(res, "C03", what, f)
+}
+
+// guardCall runs a call that normally takes microseconds on its own goroutine; a panic and 20 s without
+// an answer are violations of prop (the run is then abandoned: the goroutine keeps spinning).
+func guardCall(res *core.Result, prop, what string, f func()) (ok bool) {
 	done := make(chan interface{}, 1)
 	go func() {
 		defer func() { done <- recover() }()
@@ -482,12 +488,12 @@ func c03Guard(res *core.Result, what string, f func()) (ok bool) {
 	select {
 	case e := <-done:
 		if e != nil {
-			res.Fail("C03", "no-panic", what+" panicked", "%s panicked: %v", what, e)
+			res.Fail(prop, "no-panic", what+" panicked", "%s panicked: %v", what, e)
 			return false
 		}
 		return true
 	case <-time.After(20 * time.Second):
-		res.Fail("C03", "terminates", what+" does not return", "%s did not return within 20s (it normally takes microseconds): non-termination", what)
+		res.Fail(prop, "terminates", what+" does not return", "%s did not return within 20s (it normally takes microseconds): non-termination", what)
 		res.Abandoned = true
 		return false
 	}
